@@ -512,7 +512,7 @@ Print Assumptions C03_fragment_breaks_instance.
    and esc_spans together, which every configuration meets (C03_fragment_document_configs) *)
 From Mistletoe Require Import Proofs.OneInline.
 Theorem C03_one_in_sentence : forall types fn pre x post,
-  leaf_spans types = true -> inl_ok pre x post = true ->
+  leaf_spans types = true -> EmphSimple.emph_spans types = true -> inl_ok pre x post = true ->
   Inline.tokenize_inner types fn (pre ++ inl_text x ++ post) = EmphSentence.raw_if pre ++ [inl_tok x] ++ EmphSentence.raw_if post.
 Proof. exact one_in_sentence. Qed.
 Print Assumptions C03_one_in_sentence.
@@ -542,3 +542,15 @@ Theorem C03_backslash_break_hypotheses :
   (bline_okb ($"first line", 0%nat) = true) /\ (bline_okb ($"ends in a space ", 0%nat) = false).
 Proof. split; [exact bs_configs|]. vm_compute. split; reflexivity. Qed.
 Print Assumptions C03_backslash_break_hypotheses.
+
+(* ... and NESTED EMPHASIS (C06_nested_emphasis) is an inline element of leaf FOne too: an emphasised phrase holding emphasised phrases in a
+   one-line paragraph, at every nesting depth of blocks - tokens, HTML (nest_html: the inner tags inside the outer one) and Markdown round trip *)
+Theorem C03_fragment_nested_emphasis_instance :
+  let x := INest 42 0 ($"one ") [(95, 0%nat, $"two", $" and "); (42, 1%nat, $"three words", $", ")]%Z ($"four") in
+  let t := FQuote [FOne 83 $"ay " x $"."; FItem (MBullet 45) 1 [FOne 83 $"ay " x []]] in
+  wf_b t = true /\
+  text_of (spell t) = [ $"> Say *one _two_ and **three words**, four*." ++ [10%Z]; $"> " ++ [10%Z]; $"> - Say *one _two_ and **three words**, four*" ++ [10%Z] ] /\
+  html_f (mkHopts false false) true (FOne 83 $"ay " x $".") = $"Say <em>one <em>two</em> and <strong>three words</strong>, four</em>." /\
+  wf_b (FOne 83 $"ay " (INest 42 0 ($"one") [] ($"four")) []) = false.
+Proof. vm_compute. repeat split; reflexivity. Qed.
+Print Assumptions C03_fragment_nested_emphasis_instance.
